@@ -1,7 +1,8 @@
 import OdlModel.Common
 import OdlModel.Model.Ufunc
 import OdlModel.Gen.UfuncLegacy
-open OdlModel OdlModel.Ufunc
+import OdlModel.Model.UfuncValue
+open OdlModel OdlModel.Ufunc OdlModel.UfuncValue
 
 /-! Line-protocol driver for the C17 decision model. One request per line, one canonical
 outcome per line; anything unknown or malformed is `none` (printed `bad-op`). -/
@@ -254,8 +255,163 @@ def doCanCast (l : Line) : Option String := do
   let b ← l.get? "dst" >>= parseDType
   some (if a.canCast b then "1" else "0")
 
+/-! ### ROUND 4: value / buffer model of the legacy product-space interface -/
+
+mutual
+/-- `L1,2,3` leaf (`L` = empty), `N(t;t;…)` product (`N()` = no parts) -/
+partial def parseTree (cs : List Char) : Option (PTree Rat × List Char) :=
+  match cs with
+  | 'L' :: rest =>
+      let tok := rest.takeWhile (fun c => c != ';' && c != ')')
+      let rest' := rest.dropWhile (fun c => c != ';' && c != ')')
+      (parseRatList (String.ofList tok)).map (fun v => (PTree.leaf v, rest'))
+  | 'N' :: '(' :: ')' :: rest => some (PTree.node [], rest)
+  | 'N' :: '(' :: rest => do
+      let (ps, rest') ← parseTrees rest
+      some (PTree.node ps, rest')
+  | _ => none
+partial def parseTrees (cs : List Char) : Option (List (PTree Rat) × List Char) := do
+  let (t, rest) ← parseTree cs
+  match rest with
+  | ';' :: r => do
+      let (ts, r') ← parseTrees r
+      some (t :: ts, r')
+  | ')' :: r => some ([t], r)
+  | _ => none
+end
+
+def parseTreeStr (s : String) : Option (PTree Rat) :=
+  match parseTree s.toList with
+  | some (t, []) => some t
+  | _ => none
+
+partial def showTree : PTree Rat → String
+  | .leaf v => "L" ++ ",".intercalate (v.map showRat)
+  | .node ps => "N(" ++ ";".intercalate (ps.map showTree) ++ ")"
+
+mutual
+/-- `B3` buffer id, `N(b;b;…)` -/
+partial def parseBTree (cs : List Char) : Option (BTree × List Char) :=
+  match cs with
+  | 'B' :: rest =>
+      let tok := rest.takeWhile (fun c => c != ';' && c != ')')
+      let rest' := rest.dropWhile (fun c => c != ';' && c != ')')
+      (String.ofList tok).toNat?.map (fun i => (BTree.buf i, rest'))
+  | 'N' :: '(' :: ')' :: rest => some (BTree.node [], rest)
+  | 'N' :: '(' :: rest => do
+      let (ps, rest') ← parseBTrees rest
+      some (BTree.node ps, rest')
+  | _ => none
+partial def parseBTrees (cs : List Char) : Option (List BTree × List Char) := do
+  let (t, rest) ← parseBTree cs
+  match rest with
+  | ';' :: r => do
+      let (ts, r') ← parseBTrees r
+      some (t :: ts, r')
+  | ')' :: r => some ([t], r)
+  | _ => none
+end
+
+def parseBTreeStr (s : String) : Option BTree :=
+  match parseBTree s.toList with
+  | some (t, []) => some t
+  | _ => none
+
+/-- NumPy's scalar arithmetic on exact rationals, by `ufunc.__name__` (one input) -/
+def unaryOp : String → Option (Rat → Rat)
+  | "negative" => some (fun a => -a)
+  | "positive" => some (fun a => a)
+  | "conjugate" => some (fun a => a)
+  | "square" => some (fun a => a * a)
+  | "absolute" => some (fun a => if a < 0 then -a else a)
+  | "sign" => some (fun a => if a < 0 then -1 else if 0 < a then 1 else 0)
+  | "floor" => some (fun a => (a.floor : Rat))
+  | "ceil" => some (fun a => -((-a).floor : Rat))
+  | _ => none
+
+/-- … two inputs -/
+def binaryOp : String → Option (Rat → Rat → Rat)
+  | "add" => some (· + ·)
+  | "subtract" => some (· - ·)
+  | "multiply" => some (· * ·)
+  | "maximum" => some (fun a b => if a < b then b else a)
+  | "minimum" => some (fun a b => if b < a then b else a)
+  | "fmax" => some (fun a b => if a < b then b else a)
+  | "fmin" => some (fun a b => if b < a then b else a)
+  | _ => none
+
+/-- NumPy's reduction `np.<comb>` of a flat list -/
+def combRed : String → Option (List Rat → Option Rat)
+  | "sum" => some (foldId (· + ·) 0)
+  | "prod" => some (foldId (· * ·) 1)
+  | "min" => some (fold1 (fun a b => if b < a then b else a))
+  | "max" => some (fold1 (fun a b => if a < b then b else a))
+  | _ => none
+
+/-- `psred name=<sum|prod|min|max> tree=<T>`: the combining `np.<comb>` comes from the generated
+table of `ProductSpaceUfuncs` (so a changed method body changes the answer). -/
+def doPsRed (l : Line) : Option String := do
+  let name ← l.get? "name"
+  let t ← l.get? "tree" >>= parseTreeStr
+  let (_, comb) ← Gen.UfuncLegacy.legacyPowerReductions.find? (·.1 = name)
+  let red ← combRed comb
+  match psReduce red t with
+  | some r => some s!"ok {showRat r}"
+  | none => some "err:ValueError"
+
+/-- the wrapper rule and NumPy ufunc of a legacy name, through the generated tables -/
+def plegacyRule (name : String) : Option (String × PLegacyRule) := do
+  if !Gen.UfuncLegacy.legacyNames.contains name then none
+  let (_, uname, nin, nout) ← Gen.UfuncLegacy.npUfuncs.find? (·.1 = name)
+  let (_, rule) ← Gen.UfuncLegacy.legacyPowerRules.find? (·.1 = (nin, nout))
+  some (uname, rule)
+
+/-- `psmap name=<legacy name> tree=<T>` -/
+def doPsMap (l : Line) : Option String := do
+  let name ← l.get? "name"
+  let t ← l.get? "tree" >>= parseTreeStr
+  let (uname, rule) ← plegacyRule name
+  if rule ≠ PLegacyRule.mapOrInto then none
+  let f ← unaryOp uname
+  some s!"ok {showTree (psMap f t)}"
+
+/-- `psbin name=<legacy name> tree=<T> arg=<s:rat|e:T>` -/
+def doPsBin (l : Line) : Option String := do
+  let name ← l.get? "name"
+  let t ← l.get? "tree" >>= parseTreeStr
+  let a ← l.get? "arg"
+  let arg ← if a.startsWith "s:" then (parseRat (a.drop 2).toString).map PArg.scalar
+            else if a.startsWith "e:" then (parseTreeStr (a.drop 2).toString).map PArg.elem
+            else none
+  let (uname, rule) ← plegacyRule name
+  if rule ≠ PLegacyRule.binary then none
+  let op ← binaryOp uname
+  match psBin op t arg with
+  | some r => some s!"ok {showTree r}"
+  | none => some "undescribed"
+
+def parseHeap (s : String) : Option (Heap Rat) := (s.splitOn "|").mapM parseRatList
+def showHeap (h : Heap Rat) : String := "|".intercalate (h.map showRatList)
+
+/-- `psinto name=<legacy name> heap=<b|b|…> x=<B> out=<B>` -/
+def doPsInto (l : Line) : Option String := do
+  let name ← l.get? "name"
+  let h ← l.get? "heap" >>= parseHeap
+  let x ← l.get? "x" >>= parseBTreeStr
+  let o ← l.get? "out" >>= parseBTreeStr
+  let (uname, rule) ← plegacyRule name
+  if rule ≠ PLegacyRule.mapOrInto then none
+  let f ← unaryOp uname
+  match psMapInto f h x o with
+  | some h' => some s!"ok {showHeap h'}"
+  | none => some "err"
+
 def handle (l : Line) : Option String :=
   match l.op with
+  | "psred" => doPsRed l
+  | "psmap" => doPsMap l
+  | "psbin" => doPsBin l
+  | "psinto" => doPsInto l
   | "ufunc" => doUfunc l
   | "legacy" => doLegacy l
   | "legacyred" => doLegacyRed l
